@@ -953,7 +953,7 @@ class Executor(ExprMixin):
         v = n.value
         if isinstance(v, ast.Constant):
             return [Flow('fall', st)]
-        if isinstance(v, ast.Call) and isinstance(v.func, ast.Attribute) and v.func.attr in ('append', 'update'):
+        if isinstance(v, ast.Call) and isinstance(v.func, ast.Attribute) and v.func.attr in ('append', 'update', 'add', 'discard'):
             return self.mutating_call(v, st)
         return self.lift(self.ev(v, st), lambda s, _: [Flow('fall', s)])
 
@@ -982,6 +982,17 @@ class Executor(ExprMixin):
                     return self.assign_to(tgt, L, s)
                 return self.cases(st2, [(is_('List', cur), app),
                                         (z3.Not(is_('List', cur)), lambda s: [Flow('exc', s, 'AttributeError')])])
+            if call.func.attr in ('add', 'discard'):
+                # sets are modelled by their membership only (a Dict whose values are never read)
+                cur, arg = self.need_term(cur), self.need_term(arg)
+                D = V.Dict(fresh('setid', T.I))
+                kk = fresh('k')
+                add = call.func.attr == 'add'
+                s = st2.add(z3.ForAll([kk], T.dhas(D, kk) == (z3.Or(T.dhas(cur, kk), kk == arg) if add else
+                                                               z3.And(T.dhas(cur, kk), kk != arg)), patterns=[T.dhas(D, kk)]),
+                            T.dcount(D) >= 0)
+                return self.cases_flow(s, [(is_('Dict', cur), lambda s_: self.assign_to(tgt, D, s_)),
+                                           (z3.Not(is_('Dict', cur)), lambda s_: [Flow('exc', s_, 'AttributeError')])])
             if call.func.attr == 'update':
                 cur, arg = self.need_term(cur), self.need_term(arg)
                 D = V.Dict(fresh('did', T.I))
